@@ -303,13 +303,21 @@ func checkRowMapping(c *Ctx, rule string) {
 				got, isSel := selField(ex)
 				if !isSel {
 					if v := identVar(ex); v != nil {
-						got = varTiedField(v, s.Decl)
+						// the function the operand is written in (the statement's, or a helper that returns the list)
+						home := s.Decl
+						if d := p.declContaining("queue", ex.Pos()); d != nil {
+							home = d
+						}
+						got = varTiedField(v, home)
 						if got == "" {
-							got = paramTiedField(p, info, v, s.Decl, varTiedField)
+							got = paramTiedField(p, info, v, home, varTiedField)
 						}
 						if got == "" && v.IsField() {
 							// carrier struct field: find where it is assigned in the same declaration
 							got = carrierFieldTied(p, info, v, s.Decl, selField)
+							if got == "" && home != s.Decl {
+								got = carrierFieldTied(p, info, v, home, selField)
+							}
 						}
 					}
 				}
@@ -373,10 +381,36 @@ func checkRowMapping(c *Ctx, rule string) {
 // carrierFieldTied: v is a field of a helper struct (prepared.headersJSON); find the composite literal
 // or assignment in decl that fills it and the envelope field used there.
 func carrierFieldTied(p *Program, info *types.Info, v *types.Var, decl *types.Func, selField func(ast.Expr) (string, bool)) string {
-	fd, _ := p.funcDecl(decl)
+	fd, pk := p.funcDecl(decl)
 	if fd == nil {
 		return ""
 	}
+	if got := carrierFieldTiedIn(info, v, fd, selField); got != "" {
+		return got
+	}
+	// the record is filled in elsewhere in the package (and handed to the function that binds it): every literal that
+	// sets the field must tie it to the same envelope field
+	agreed := ""
+	for _, f := range pk.Syntax {
+		for _, d := range f.Decls {
+			ofd, ok := d.(*ast.FuncDecl)
+			if !ok || ofd.Body == nil || ofd == fd {
+				continue
+			}
+			got := carrierFieldTiedIn(info, v, ofd, selField)
+			if got == "" {
+				continue
+			}
+			if agreed != "" && agreed != got {
+				return ""
+			}
+			agreed = got
+		}
+	}
+	return agreed
+}
+
+func carrierFieldTiedIn(info *types.Info, v *types.Var, fd *ast.FuncDecl, selField func(ast.Expr) (string, bool)) string {
 	found := ""
 	ast.Inspect(fd, func(n ast.Node) bool {
 		kv, ok := n.(*ast.KeyValueExpr)
